@@ -205,10 +205,18 @@ func c17Build(d c17Doc, term string) *c17Built {
 				if d.Max >= 4 {
 					ind = r.IntN(5)
 				}
-				out.WriteString("    "[:ind])
+				if r.IntN(4) == 0 {
+					out.WriteString("\t\t\t\t"[:ind]) // tab-indented documents (what --tab writes)
+				} else {
+					out.WriteString("    "[:ind])
+				}
 				cur, tgt = ind, target()
 			} else if n := r.IntN(4); n >= 2 {
-				out.WriteString("  "[:n-1])
+				if r.IntN(6) == 0 {
+					out.WriteString("\t\t"[:n-1])
+				} else {
+					out.WriteString("  "[:n-1])
+				}
 				cur += n - 1
 			}
 		}
@@ -451,6 +459,12 @@ var kC17J = run.NewKind("c17.json", func(c *run.Ctx, t c17JCase) *run.Fail {
 		case "stdinfile":
 			write("in.json", whole)
 			opt = run.CLIOpt{Args: args, StdinFile: path}
+		case "stdinfile-skip":
+			// the descriptor is a regular file whose first lines another process has already consumed: what the
+			// command reads, and therefore numbers, starts at the current position
+			prefix := []byte("{\"consumed\": \"by somebody else\"}" + c17Term(t.Term) + "[1, 2," + c17Term(t.Term) + " 3]" + c17Term(t.Term))
+			write("in.json", append(append([]byte{}, prefix...), whole...))
+			opt = run.CLIOpt{Args: args, StdinFile: path, StdinSkip: int64(len(prefix))}
 		default:
 			opt = run.CLIOpt{Args: args, Stdin: whole}
 		}
@@ -571,6 +585,7 @@ var c17Combos = []c17Combo{
 	{"stream", "file"}, {"stream", "stdinfile"}, {"stream", "pipe"},
 	{"slurp", "file"}, {"slurp", "stdinfile"}, {"slurp", "pipe"},
 	{"plain", "pipe"}, {"stream", "pipe"}, {"slurp", "pipe"},
+	{"plain", "stdinfile-skip"}, {"stream", "stdinfile-skip"}, {"slurp", "stdinfile-skip"},
 	{"slurpfile", "file"}, {"argjson", "arg"}, {"file2", "file"}, {"importjson", "file"},
 }
 
